@@ -325,6 +325,7 @@ func TestCheck(t *testing.T) {
 			r.Finish()
 		}
 	}
+	retentionOnly(r) // development aid (VERIF_C14_ONLY=retention), never a complete check
 	if ji, ok := runner.Job(); ok {
 		var c counters
 		mem := qsys.New("memory", cfg, "")
@@ -359,6 +360,8 @@ func TestCheck(t *testing.T) {
 		}
 		mem.Close()
 		sql.Close()
+		// the same by-filter / id mutations on stores opened WITH retention (lazy prune), store-API layer
+		retentionStoreJob(r, ji, shards, ji, min(runner.Pick(r, 25*time.Second, 4*time.Minute), max(time.Until(deadline), 0)+2*time.Minute))
 		r.Finish()
 	}
 	twoHandlePart14(r, t) // operator mutation through a second SQLite handle against a worker's settlement (schedules)
@@ -367,7 +370,11 @@ func TestCheck(t *testing.T) {
 	}
 	r.RunJobs(shards, shards, time.Until(deadline)+3*time.Minute)
 	if _, child := runner.IsShard(); !child {
+		rt := make(chan struct{})
+		go func() { defer close(rt); retentionLayersPart(r) }() // retention scenarios through Admin HTTP / MCP, next to the admin part
 		adminPart(r)
+		<-rt
+		retentionRule(r)
 		px := make(chan struct{})
 		go func() { defer close(px); mcpProxyPart(r) }() // MCP through the Admin API proxy, next to the direct-SQLite MCP part
 		mcpPart(r)
